@@ -1,9 +1,9 @@
 package main
 
 import (
-	"go/types"
-	"go/constant"
 	"fmt"
+	"go/constant"
+	"go/types"
 	"sort"
 	"strings"
 
@@ -624,7 +624,7 @@ func c03Gates(c *Ctx) {
 	// stateHistory accessors consult the deployment height
 	type acc struct {
 		pkg, recv, name string
-		relaxed          bool
+		relaxed         bool
 	}
 	for _, a := range []acc{
 		{"core/deprecatedstate", "stateHistory", "ContractClassHash", false},
@@ -802,7 +802,6 @@ func c04FixturePair(c *Ctx, ci *capInfo, r *resolver, nilCfg bool) {
 		}
 	}
 }
-
 
 // rangeLoopOf: the range-loop header (go/ssa block comment rangeindex.loop / rangeiter.loop) whose body contains b, if any
 func rangeLoopOf(b *ssa.BasicBlock) *ssa.BasicBlock {
